@@ -310,12 +310,11 @@ class ExponentialCoalescent(Distribution):
 
 class PiecewiseConstantCoalescent(AbstractCoalescentDistribution):
     def _sorted_terms(self, node_heights):
-        batch_shape = max(node_heights.shape, self.theta.shape, key=len)[:-1]
-        # if node_heights is fixed there is no batch dimension
-        if node_heights.dim() < self.theta.dim():
-            heights = node_heights.expand(batch_shape + torch.Size([-1]))
-        else:
-            heights = node_heights
+        batch_shape = torch.broadcast_shapes(
+            node_heights.shape[:-1], self.theta.shape[:-1]
+        )
+        # node_heights and theta may carry different (broadcastable) batch dimensions
+        heights = node_heights.expand(batch_shape + torch.Size([-1]))
 
         taxa_shape = heights.shape[:-1] + (int((node_heights.shape[-1] + 1) / 2),)
         node_mask = torch.cat(
@@ -385,7 +384,9 @@ class PiecewiseConstantCoalescent(AbstractCoalescentDistribution):
             torch.tensor([0], dtype=torch.long),
         ).cumsum(-1)[..., :-1]
 
-        thetas = self.theta.gather(-1, thetas_indices)
+        thetas = self.theta.expand(thetas_indices.shape[:-1] + (-1,)).gather(
+            -1, thetas_indices
+        )
         return -torch.sum(
             lchoose2 * durations / thetas, -1, keepdim=True
         ) - self.theta.log().sum(-1, keepdim=True)
@@ -467,21 +468,20 @@ class PiecewiseConstantCoalescentGrid(AbstractCoalescentDistribution):
         self.grid = grid
 
     def _sorted_terms(self, node_heights: torch.Tensor):
-        batch_shape = max(node_heights.shape, self.theta.shape, key=len)[:-1]
+        batch_shape = torch.broadcast_shapes(
+            node_heights.shape[:-1], self.theta.shape[:-1]
+        )
 
         grid = self.grid.expand(batch_shape + torch.Size([-1]))
 
-        if node_heights.dim() < self.theta.dim():
-            heights = torch.cat(
-                [
-                    node_heights.expand(batch_shape + torch.Size([-1])),
-                    grid,
-                ],
-                -1,
-            )
-
-        else:
-            heights = torch.cat([node_heights, grid], -1)
+        # node_heights and theta may carry different (broadcastable) batch dimensions
+        heights = torch.cat(
+            [
+                node_heights.expand(batch_shape + torch.Size([-1])),
+                grid,
+            ],
+            -1,
+        )
 
         taxa_shape = heights.shape[:-1] + (int((node_heights.shape[-1] + 1) / 2),)
         node_mask = torch.cat(
@@ -521,7 +521,6 @@ class PiecewiseConstantCoalescentGrid(AbstractCoalescentDistribution):
         return sufficient_statistics, coalescent_counts
 
     def log_prob(self, node_heights: torch.Tensor) -> torch.Tensor:
-        batch_shape = max(node_heights.shape, self.theta.shape, key=len)[:-1]
         node_mask_sorted, lchoose2, durations = self._sorted_terms(node_heights)
 
         thetas_indices = torch.where(
@@ -530,12 +529,9 @@ class PiecewiseConstantCoalescentGrid(AbstractCoalescentDistribution):
             torch.tensor([0], dtype=torch.long),
         ).cumsum(-1)
 
-        if self.theta.dim() <= len(batch_shape):
-            thetas = self.theta.expand(batch_shape + torch.Size([-1])).gather(
-                -1, thetas_indices
-            )
-        else:
-            thetas = self.theta.gather(-1, thetas_indices)
+        thetas = self.theta.expand(thetas_indices.shape[:-1] + (-1,)).gather(
+            -1, thetas_indices
+        )
 
         log_thetas = torch.where(
             node_mask_sorted == -1,
